@@ -102,6 +102,12 @@ def gen_program(rng: Any, *, max_cbs: int = 8, for_sweep: bool = False) -> dict[
         if rng.random() < 0.3:
             body.append({"op": rng.choice(["yield", "sleep"]), "k": rng.choice([1, 2, 0.5])})
         body.append({"op": "reg", "cb": gen_cb(rng, ids, 0, allow_service=not for_sweep, p_raise=p_raise)})
+    regs = [op["cb"] for op in body if op["op"] == "reg"]
+    if regs and regs[-1]["route"] == "ctxteardown" and regs[-1]["gen_shape"] == "normal" and not regs[-1]["setup_children"] and rng.random() < 0.6:
+        # the *last* registration of the block is a @context_teardown function that holds a context of its own open across its
+        # yield (from then on that context is the current one in this task, which is why nothing else is registered after it)
+        regs[-1]["gen_shape"] = "own_context"
+        regs[-1]["children"] = []
     if rng.random() < 0.3:
         body.append({"op": "yield", "k": 1})
     if for_sweep:
@@ -172,6 +178,7 @@ class Run:
         self.sibling_in_teardown = False
         self.failed_service_starts = 0
         self.gen_shapes: dict[str, int] = {}
+        self.own_ctxs: dict[int, Any] = {}  # contexts that @context_teardown generators hold open themselves across their yield
         self.setup_registrations = 0
         self.from_child_registrations = 0
 
@@ -204,7 +211,7 @@ class Run:
             try:
                 from asphalt.core import current_context
 
-                if current_context() is not run.ctx:
+                if current_context() is not run.own_ctxs.get(cid, run.ctx):
                     run.current_ok = False
             except Exception:
                 run.current_ok = False
@@ -461,6 +468,16 @@ class Run:
                         return  # decides at run time that there is nothing to clean up: nothing is registered
                     if shape == "raises_before_yield":
                         raise SetupFailed(f"set-up part of @context_teardown function {cid} failed")
+                    if shape == "own_context":
+                        # the function wraps a context of its own around its yield (a scope for what it sets up): the second half
+                        # still belongs to the context the function was *called* in, and runs when that one is left
+                        from asphalt.core import Context as _Context
+
+                        async with _Context() as own:
+                            run.own_ctxs[cid] = own
+                            exc = yield
+                            await probe(exc)
+                        return
                     exc = yield
                     await probe(exc)
                     if shape == "yields_twice":
